@@ -167,7 +167,9 @@ def gen_key_ast(rng):
 def sd_ast(rng, videos):
     d = {"bandwidth": G.rint(rng)}
     if rng.random() < 0.4: d["avg"] = G.rint(rng)
-    if rng.random() < 0.5: d["codecs"] = rng.choice([["avc1.4d401e"], ["mp4a.40.2", "avc1.4d401e"], ["a", " b"], [""], ["x=y", "z"]])
+    if rng.random() < 0.5: d["codecs"] = rng.choice([["avc1.4d401e"], ["mp4a.40.2", "avc1.4d401e"], ["a", " b"], [""], ["x=y", "z"],
+                                                          # an empty entry is an entry (the list is the text split at its commas), wherever it stands
+                                                          ["", "a"], ["a", ""], ["a", "", "b"], ["", ""], ["", "", "a"], ["", "a", ""]])
     if rng.random() < 0.4: d["resolution"] = (G.rint(rng), G.rint(rng))
     if rng.random() < 0.3: d["hdcp"] = rng.choice(["TYPE-0", "NONE"])
     if videos and rng.random() < 0.5: d["video"] = rng.choice(videos)
@@ -493,9 +495,18 @@ def render_media(rng, a, plain=False):
     lay = G.Layout(rng, plain)
     lines = ["#EXTM3U"] + [hdr_line(rng, lay, h) for h in a["hdr"]]
     for s in a["segments"]:
-        for kind, k in s["events"]:
-            lines.append("#EXT-X-KEY:METHOD=NONE" if kind == "keynone" else "#EXT-X-KEY:" + lay.attrs(key_pairs(rng, k)))
-        for kind, x in s["tags"]:
+        klines = ["#EXT-X-KEY:METHOD=NONE" if kind == "keynone" else "#EXT-X-KEY:" + lay.attrs(key_pairs(rng, k)) for kind, k in s["events"]]
+        # the key lines of a segment may stand anywhere among its tags (also behind the EXTINF line) as long as they stay in
+        # front of the segment's EXT-X-MAP (the abstract playlist says: the map is covered by all of them)
+        spread = (not plain) and klines and rng.random() < 0.5
+        kinds = [kind for kind, _ in s["tags"]]
+        limit = kinds.index("map") if "map" in kinds else len(kinds)
+        slots = sorted(rng.randint(0, limit) for _ in klines) if spread else [0] * len(klines)
+        if not spread:
+            lines += klines
+        for ti, (kind, x) in enumerate(s["tags"]):
+            if spread:
+                lines += [kl for kl, sl in zip(klines, slots) if sl == ti]
             if kind == "map":
                 p = [("URI", q(x["uri"]))]
                 if "range" in x:
@@ -515,6 +526,8 @@ def render_media(rng, a, plain=False):
                 lines.append("#EXTINF:%s,%s%s" % (s["dur_lit"], s["title_pad"] if s["title"] else "", s["title"] or ""))
             elif kind == "unknown":
                 lines.append(x)
+        if spread:
+            lines += [kl for kl, sl in zip(klines, slots) if sl >= len(s["tags"])]
         lines.append(s["uri"])
     lines += [hdr_line(rng, lay, h) for h in a["tail"]]
     return lay.join(lines)
